@@ -45,7 +45,7 @@ def dumpL (s : Pool.State) : String :=
 /-- observation of the pointer-level model (walks follow the `next` pointers) -/
 def dumpH (s : PoolHeap.State) : String :=
   let vals := fun (w : PoolHeap.Which) (h : Option Nat) =>
-    showVals ((PoolHeap.walk s.ents w (s.next + 1) h).map fun e => (s.ents e).val)
+    showVals ((PoolHeap.walk s.ents w (s.next + 1) h).map fun e => (s.ents.get e).val)
   let g := s!"g:{vals .g s.order.head}#{s.order.count}"
   let ks := (List.range nKeys).map fun k =>
     match s.locals k with
@@ -85,7 +85,7 @@ def advance (cfg : Pool.Cfg) (d : DState) (target : Nat) : DState × List Nat ×
   let (d', fl, fh) := due.foldl (fun (acc : DState × List Nat × List Nat) i =>
     let (d, fl, fh) := acc
     let firedL := (d.l.ents i).exp == .armed
-    let firedH := (d.h.ents i).exp == .armed
+    let firedH := (d.h.ents.get i).exp == .armed
     let (d', _, _) := stepBoth cfg d (.fire i)
     (d', if firedL then fl ++ [i] else fl, if firedH then fh ++ [i] else fh)) (d, [], [])
   ({ d' with now := max d.now target, ticked := d.ticked + due.length }, fl, fh)
